@@ -146,6 +146,9 @@ func (g *gen) attrsValid(n int) {
 			rfc = fmt.Sprintf("raw:10:%s", showHex(rfcUnknown(ts)))
 		}
 		// library encoder -> wire -> library decoder -> library getter
+		if g.r.chance(1, 2) {
+			g.emit("PRIME %d", g.r.intn(256))
+		}
 		g.emit("BUILD 0 %s+%s", hdr, set)
 		g.emit("GETX 0 %s", get)
 		g.emit("CLONE 0 1")
@@ -251,6 +254,9 @@ func (g *gen) malformedCaseAt(typ int, val []byte, op string, pos, fixedExtra in
 		return as
 	}
 	tid := g.r.bytes(12)
+	if g.r.chance(1, 3) {
+		g.emit("PRIME %d", g.r.intn(256))
+	}
 	for slot, fill := range []int{0, 0xFF, -1} {
 		b := wire(uint16(g.r.intn(0x3FFF)), tid, mk(fill))
 		extra := []int{0, 0, 1, 2, 19, 20, 64}[g.r.intn(7)]
